@@ -235,6 +235,13 @@ def session (shielded : Bool) (os : OS) (s : Spawn) (p : ExitPath) (c : ChildSpe
   | .failed => { raisedOnEnter := true, trace := none }
   | .started => { raisedOnEnter := false, trace := some (exit shielded os p c) }
 
+/-- Entering through a wrapper that performs the `initialize` handshake before the body runs
+(`stdio_client_with_initialize`): when the child does not answer, the handshake times out INSIDE
+the context, which is left by that exception, and entering raises. -/
+def sessionWithHandshake (d : Design) (os : OS) (answersInit : Bool) (p : ExitPath) (c : ChildSpec)
+    (l : Load) : Bool × Option Trace :=
+  if answersInit then (false, leave d os p c l) else (true, leave d os .exception c l)
+
 /-! ## A pending request -/
 
 inductive ReqOutcome (α : Type) where
@@ -253,6 +260,8 @@ def pending {α : Type} (written : List (Nat × α)) (i : Nat) : ReqOutcome α :
 
 inductive Behaviour where
   | well | exitAt (k : Nat) | ignoreTerm | neverReads | stopsReading | flood | closeStdout (ignoresTerm : Bool) (after : Nat) | closeStdin | slowStart
+  /-- well-behaved, but reacts to SIGTERM only after `ms` -/
+  | slowTerm (ms : Nat)
   deriving DecidableEq, Repr
 
 inductive Moment where
@@ -268,8 +277,8 @@ def stepsDone : Moment → Nat
 
 def childSpec (b : Behaviour) (m : Moment) : ChildSpec :=
   { exited := (match b with | .exitAt k => decide (k ≤ stepsDone m) | _ => false),
-    termDelay := (match b with | .ignoreTerm => none | .closeStdout true _ => none | _ => some 0),
-    eofDelay := (match b with | .well | .slowStart | .exitAt _ => some 0 | _ => none),
+    termDelay := (match b with | .ignoreTerm => none | .closeStdout true _ => none | .slowTerm ms => some ms | _ => some 0),
+    eofDelay := (match b with | .well | .slowStart | .slowTerm _ | .exitAt _ => some 0 | _ => none),
     reads := (match b with | .neverReads | .stopsReading | .flood | .closeStdin => false | _ => true),
     floods := (match b with | .flood => true | _ => false),
     stdoutOpen := (match b with | .closeStdout _ _ => false | _ => true),
@@ -278,7 +287,7 @@ def childSpec (b : Behaviour) (m : Moment) : ChildSpec :=
 /-- does the child answer the `j`-th (1-based) request of the conversation? -/
 def answers (b : Behaviour) (j : Nat) : Bool :=
   match b with
-  | .well | .ignoreTerm | .slowStart => true
+  | .well | .ignoreTerm | .slowStart | .slowTerm _ => true
   | .exitAt k => decide (2 * j ≤ k)
   | .stopsReading => decide (j = 1)
   | .closeStdout _ n => decide (j ≤ n)
